@@ -165,7 +165,7 @@ def averageMasses : List (Key × Rat) := (averageWrites Gen.nuclides).reverse
 -- compiler are unaffected)
 attribute [irreducible] isotopicMasses averageMasses
 
-def isIsotopeKey (e : Elem) : Bool := isDigitCode (keyHead e) || e == kD || e == kT
+def isIsotopeKey (e : Elem) : Bool := isDigitCode (keyHead e) || decide (e = kD) || decide (e = kT)
 
 /-- the mass `chem_mass` uses for one dict key; `none` = "Unknown element" -/
 def elemMass (mono : Bool) (e : Elem) : Option Rat :=
